@@ -92,11 +92,11 @@ theorem time_openLoop_divLin (α : F) (p : List F) :
 
 /-- **`CommitterKey::open` is synthetic division**: the evaluation is the remainder, the proof the
 MSM of the quotient, for every coefficient list and every key. -/
-theorem time_open_eq (ck : CK F) (p : List F) (α : F) :
-    Time.open ck p α = (evalPoly p α, dot ck.powersOfG (divLin p α).1) := by
+theorem time_openBody_eq (ck : CK F) (p : List F) (α : F) :
+    Time.openBody ck p α = (evalPoly p α, dot ck.powersOfG (divLin p α).1) := by
   have h := time_openLoop_divLin α p
   rw [divLin_rem] at h
-  unfold Time.open
+  unfold Time.openBody
   cases hT : Time.openLoop α p.reverse 0 [] with
   | nil =>
     rw [hT] at h; simp at h
@@ -104,6 +104,85 @@ theorem time_open_eq (ck : CK F) (p : List F) (α : F) :
   | cons ev quot =>
     rw [hT] at h; simp at h
     rw [h.1, h.2, dot_append_zero]
+
+/-- … and `CommitterKey::open` answers it whenever the key has a power for every coefficient -/
+theorem time_open_eq (ck : CK F) (p : List F) (α : F) (h : p.length ≤ ck.powersOfG.length) :
+    Time.open ck p α = .ok (evalPoly p α, dot ck.powersOfG (divLin p α).1) := by
+  unfold Time.open
+  rw [if_neg (by omega), time_openBody_eq]
+
+/-- a polynomial with more coefficients than the key has powers: `CommitterKey::open` aborts (fix D24) -/
+theorem time_open_abort (ck : CK F) (p : List F) (α : F) (h : ck.powersOfG.length < p.length) :
+    Time.open ck p α = .error .abort := by
+  unfold Time.open
+  rw [if_pos h]
+
+theorem time_commit_eq (ck : CK F) (p : List F) (h : p.length ≤ ck.powersOfG.length) :
+    Time.commit ck p = .ok (dot ck.powersOfG p) := by
+  unfold Time.commit
+  rw [if_neg (by omega)]
+
+/-- … and so does `CommitterKey::commit` (fix D24) -/
+theorem time_commit_abort (ck : CK F) (p : List F) (h : ck.powersOfG.length < p.length) :
+    Time.commit ck p = .error .abort := by
+  unfold Time.commit
+  rw [if_pos h]
+
+theorem time_commit_ok (ck : CK F) (p : List F) (c : F) (h : Time.commit ck p = .ok c) :
+    p.length ≤ ck.powersOfG.length ∧ c = dot ck.powersOfG p := by
+  unfold Time.commit at h
+  split at h
+  · cases h
+  · injection h with h
+    exact ⟨by omega, h.symm⟩
+
+theorem time_open_ok (ck : CK F) (p : List F) (α : F) (o : F × F) (h : Time.open ck p α = .ok o) :
+    p.length ≤ ck.powersOfG.length ∧ o = (evalPoly p α, dot ck.powersOfG (divLin p α).1) := by
+  unfold Time.open at h
+  split at h
+  · cases h
+  · injection h with h
+    exact ⟨by omega, by rw [← h, time_openBody_eq]⟩
+
+theorem time_batchCommit_eq (ck : CK F) (ps : List (List F))
+    (h : ∀ p ∈ ps, p.length ≤ ck.powersOfG.length) :
+    Time.batchCommit ck ps = .ok (ps.map (dot ck.powersOfG)) := by
+  induction ps with
+  | nil => rfl
+  | cons p ps ih =>
+    simp only [Time.batchCommit, time_commit_eq ck p (h p (by simp)),
+      ih (fun q hq => h q (by simp [hq])), List.map_cons]
+
+/-- `batch_commit` aborts as soon as one polynomial is oversize (fix D24) -/
+theorem time_batchCommit_abort (ck : CK F) (ps : List (List F))
+    (h : ∃ p ∈ ps, ck.powersOfG.length < p.length) :
+    Time.batchCommit ck ps = .error .abort := by
+  induction ps with
+  | nil => simp at h
+  | cons p ps ih =>
+    by_cases hp : ck.powersOfG.length < p.length
+    · simp only [Time.batchCommit, time_commit_abort ck p hp]
+    · have hrest : ∃ q ∈ ps, ck.powersOfG.length < q.length := by
+        obtain ⟨q, hq, hlt⟩ := h
+        rcases List.mem_cons.1 hq with rfl | hq
+        · exact absurd hlt hp
+        · exact ⟨q, hq, hlt⟩
+      simp only [Time.batchCommit, time_commit_eq ck p (by omega), ih hrest]
+
+theorem time_batchCommit_length (ck : CK F) (ps : List (List F)) (cs : List F)
+    (h : Time.batchCommit ck ps = .ok cs) : cs.length = ps.length := by
+  induction ps generalizing cs with
+  | nil => simp only [Time.batchCommit] at h; injection h with h; subst h; rfl
+  | cons p ps ih =>
+    simp only [Time.batchCommit] at h
+    split at h
+    · cases h
+    · split at h
+      · cases h
+      · rename_i cs' hcs'
+        injection h with h
+        subst h
+        simp [ih cs' hcs']
 
 theorem space_openLoop_append (α : F) (xs xs' ys ys' : List F) (prev quot : F)
     (h : xs.length = ys.length) :
@@ -141,11 +220,11 @@ theorem space_openLoop_divLin (α : F) (p bs : List F) (h : bs.length = p.length
 and every key at least as long as the polynomial (`Reverse` of the key and of the coefficients). -/
 theorem space_open_eq_time_open (ck : CK F) (p : List F) (α : F)
     (h : p.length ≤ ck.powersOfG.length) :
-    Space.open (CKS.ofTime ck) p.reverse α = .ok (Time.open ck p α) := by
+    Space.open (CKS.ofTime ck) p.reverse α = Time.open ck p α := by
   unfold Space.open CKS.ofTime
   simp only [List.length_reverse]
   rw [if_neg (by omega), reverse_drop_sub _ _ h,
-    space_openLoop_divLin α p _ (by simp [List.length_take]; omega), time_open_eq,
+    space_openLoop_divLin α p _ (by simp [List.length_take]; omega), time_open_eq _ _ _ h,
     dot_take _ _ _ (by rw [divLin_len])]
 
 /-- without enough key elements the streaming prover aborts (usize underflow) -/
@@ -158,11 +237,28 @@ theorem space_open_abort (ck : CK F) (p : List F) (α : F) (h : ck.powersOfG.len
 /-- **`CommitterKeyStream::commit` = `CommitterKey::commit`**. -/
 theorem space_commit_eq_time_commit (ck : CK F) (p : List F)
     (h : p.length ≤ ck.powersOfG.length) :
-    Space.commit (CKS.ofTime ck) p.reverse = .ok (Time.commit ck p) := by
+    Space.commit (CKS.ofTime ck) p.reverse = Time.commit ck p := by
   unfold Space.commit CKS.ofTime Time.commit
   simp only [List.length_reverse]
-  rw [if_neg (by omega), reverse_drop_sub _ _ h, dot_reverse _ _ (by simp [List.length_take]; omega),
-    dot_take _ _ _ (Nat.le_refl _)]
+  rw [if_neg (by omega), if_neg (by omega), reverse_drop_sub _ _ h,
+    dot_reverse _ _ (by simp [List.length_take]; omega), dot_take _ _ _ (Nat.le_refl _)]
+
+/-- since fix D24 the two committers and the two single-point provers agree on EVERY input: with a
+key shorter than the polynomial both abort -/
+theorem space_commit_eq_time_commit_all (ck : CK F) (p : List F) :
+    Space.commit (CKS.ofTime ck) p.reverse = Time.commit ck p := by
+  by_cases h : p.length ≤ ck.powersOfG.length
+  · exact space_commit_eq_time_commit ck p h
+  · rw [time_commit_abort ck p (by omega)]
+    unfold Space.commit CKS.ofTime
+    simp only [List.length_reverse]
+    rw [if_pos (by omega)]
+
+theorem space_open_eq_time_open_all (ck : CK F) (p : List F) (α : F) :
+    Space.open (CKS.ofTime ck) p.reverse α = Time.open ck p α := by
+  by_cases h : p.length ≤ ck.powersOfG.length
+  · exact space_open_eq_time_open ck p α h
+  · rw [time_open_abort ck p α (by omega), space_open_abort ck p α (by omega)]
 
 /-! ### well-formed keys -/
 
@@ -188,14 +284,14 @@ theorem vk_ofTime_new (g g2 τ : F) (D m : Nat) :
 
 /-- commitments under a key made by `new` are `g·p(τ)` -/
 theorem time_commit_new (g g2 τ : F) (D m : Nat) (p : List F) (h : p.length ≤ D + 1) :
-    Time.commit (CK.new g g2 τ D m) p = g * evalPoly p τ := by
+    Time.commit (CK.new g g2 τ D m) p = .ok (g * evalPoly p τ) := by
   unfold Time.commit CK.new
-  simp only
-  rw [dot_comm, dot_powers _ _ _ _ h]
+  simp only [powers_length]
+  rw [if_neg (by omega), dot_comm, dot_powers _ _ _ _ h]
 
 theorem time_open_new (g g2 τ : F) (D m : Nat) (p : List F) (α : F) (h : p.length ≤ D + 1) :
-    Time.open (CK.new g g2 τ D m) p α = (evalPoly p α, g * evalPoly (divLin p α).1 τ) := by
-  rw [time_open_eq]
+    Time.open (CK.new g g2 τ D m) p α = .ok (evalPoly p α, g * evalPoly (divLin p α).1 τ) := by
+  rw [time_open_eq _ _ _ (by unfold CK.new; simp only [powers_length]; exact h)]
   unfold CK.new
   simp only
   rw [dot_comm, dot_powers _ _ _ _ (by rw [divLin_len]; exact h)]
@@ -259,41 +355,53 @@ theorem verify_honest_iff' [DecidableEq F] (g g2 τ : F) (a b : Nat) (ha : 1 ≤
   exact verify_honest_iff g g2 τ k k2 p α δ
 
 theorem verify_iff [DecidableEq F] (g g2 τ : F) (D m : Nat) (hD : 1 ≤ D) (hm : 1 ≤ m) (p : List F)
-    (α δ : F) (hp : p.length ≤ D + 1) (vk : VK F) (hvk : VK.ofTime (CK.new g g2 τ D m) = .ok vk) :
-    verify vk (Time.commit (CK.new g g2 τ D m) p) α ((Time.open (CK.new g g2 τ D m) p α).1 + δ)
-      (Time.open (CK.new g g2 τ D m) p α).2 = .ok true ↔ g * g2 * δ = 0 := by
+    (α δ : F) (hp : p.length ≤ D + 1) (vk : VK F) (hvk : VK.ofTime (CK.new g g2 τ D m) = .ok vk)
+    (c : F) (o : F × F) (hc : Time.commit (CK.new g g2 τ D m) p = .ok c)
+    (ho : Time.open (CK.new g g2 τ D m) p α = .ok o) :
+    verify vk c α (o.1 + δ) o.2 = .ok true ↔ g * g2 * δ = 0 := by
   rw [vk_ofTime_new] at hvk
   injection hvk with hvk
   subst hvk
-  rw [time_commit_new _ _ _ _ _ _ hp, time_open_new _ _ _ _ _ _ _ hp]
+  rw [time_commit_new _ _ _ _ _ _ hp] at hc
+  rw [time_open_new _ _ _ _ _ _ _ hp] at ho
+  injection hc with hc
+  injection ho with ho
+  subst hc ho
   exact verify_honest_iff' g g2 τ _ _ (by omega) (by omega) p α δ
 
 theorem verify_stream_key_iff [DecidableEq F] (g g2 τ : F) (D m : Nat) (hD : 1 ≤ D) (hm : 1 ≤ m)
     (p : List F) (α δ : F) (hp : p.length ≤ D + 1) (vk : VK F)
-    (hvk : VK.ofSpace (CKS.ofTime (CK.new g g2 τ D m)) = .ok vk) :
-    verify vk (Time.commit (CK.new g g2 τ D m) p) α ((Time.open (CK.new g g2 τ D m) p α).1 + δ)
-      (Time.open (CK.new g g2 τ D m) p α).2 = .ok true ↔ g * g2 * δ = 0 := by
+    (hvk : VK.ofSpace (CKS.ofTime (CK.new g g2 τ D m)) = .ok vk)
+    (c : F) (o : F × F) (hc : Time.commit (CK.new g g2 τ D m) p = .ok c)
+    (ho : Time.open (CK.new g g2 τ D m) p α = .ok o) :
+    verify vk c α (o.1 + δ) o.2 = .ok true ↔ g * g2 * δ = 0 := by
   rw [vk_ofSpace_new] at hvk
   injection hvk with hvk
   subst hvk
-  rw [time_commit_new _ _ _ _ _ _ hp, time_open_new _ _ _ _ _ _ _ hp]
+  rw [time_commit_new _ _ _ _ _ _ hp] at hc
+  rw [time_open_new _ _ _ _ _ _ _ hp] at ho
+  injection hc with hc
+  injection ho with ho
+  subst hc ho
   exact verify_honest_iff' g g2 τ _ _ (by omega) (by omega) p α δ
 
 theorem verify_open_complete [DecidableEq F] (g g2 τ : F) (D m : Nat) (hD : 1 ≤ D) (hm : 1 ≤ m)
     (p : List F) (α : F) (hp : p.length ≤ D + 1) (vk : VK F)
-    (hvk : VK.ofTime (CK.new g g2 τ D m) = .ok vk) :
-    verify vk (Time.commit (CK.new g g2 τ D m) p) α (Time.open (CK.new g g2 τ D m) p α).1
-      (Time.open (CK.new g g2 τ D m) p α).2 = .ok true := by
-  have h := (verify_iff g g2 τ D m hD hm p α 0 hp vk hvk).2 (by ring)
+    (hvk : VK.ofTime (CK.new g g2 τ D m) = .ok vk)
+    (c : F) (o : F × F) (hc : Time.commit (CK.new g g2 τ D m) p = .ok c)
+    (ho : Time.open (CK.new g g2 τ D m) p α = .ok o) :
+    verify vk c α o.1 o.2 = .ok true := by
+  have h := (verify_iff g g2 τ D m hD hm p α 0 hp vk hvk c o hc ho).2 (by ring)
   simpa using h
 
 /-- `verify` never aborts on such a key: it answers `true` or `false` -/
 theorem wrong_value_rejected [DecidableEq F] (g g2 τ : F) (D m : Nat) (hD : 1 ≤ D) (hm : 1 ≤ m)
     (p : List F) (α δ : F) (hp : p.length ≤ D + 1) (vk : VK F)
-    (hvk : VK.ofTime (CK.new g g2 τ D m) = .ok vk) (hg : g ≠ 0) (hg2 : g2 ≠ 0) (hδ : δ ≠ 0) :
-    verify vk (Time.commit (CK.new g g2 τ D m) p) α ((Time.open (CK.new g g2 τ D m) p α).1 + δ)
-      (Time.open (CK.new g g2 τ D m) p α).2 = .ok false := by
-  have hiff := verify_iff g g2 τ D m hD hm p α δ hp vk hvk
+    (hvk : VK.ofTime (CK.new g g2 τ D m) = .ok vk) (hg : g ≠ 0) (hg2 : g2 ≠ 0) (hδ : δ ≠ 0)
+    (c : F) (o : F × F) (hc : Time.commit (CK.new g g2 τ D m) p = .ok c)
+    (ho : Time.open (CK.new g g2 τ D m) p α = .ok o) :
+    verify vk c α (o.1 + δ) o.2 = .ok false := by
+  have hiff := verify_iff g g2 τ D m hD hm p α δ hp vk hvk c o hc ho
   have hne : ¬ (g * g2 * δ = 0) := mul_ne_zero (mul_ne_zero hg hg2) hδ
   rw [vk_ofTime_new] at hvk
   injection hvk with hvk
